@@ -404,6 +404,8 @@ def expansion(helper, call, caller_names, ctx, static_self=None):
         if p not in bound:
             if p not in defaults:
                 raise NotInlinable(f"missing argument {p}")
+            if _mutable_default(defaults[p]):
+                raise NotInlinable(f"default of {p} is a mutable object shared by all calls")
             bound[p] = defaults[p]
     body = [_copy(s) for s in _docless(list(fn.body))]
     for s in body:
@@ -763,6 +765,8 @@ class Inliner:
                     if p not in bound:
                         if p not in defaults:
                             return n
+                        if _mutable_default(defaults[p]):
+                            return n
                         bound[p] = defaults[p]
                 for p, v in bound.items():
                     uses = sum(1 for x in ast.walk(e) if isinstance(x, ast.Name) and x.id == p and isinstance(x.ctx, ast.Load))
@@ -878,6 +882,16 @@ def _module_rebinds(tree, name, node):
 
 # ---------------------------------------------------------------------------
 # canonical forms inside functions whose statements differ from the reference (pinned functions are left as written)
+
+
+def _mutable_default(d):
+    """a default value that is created once, at definition time, and could be mutated: substituting it at a call site would
+    create a fresh object per call - not the same program"""
+    if isinstance(d, (ast.Dict, ast.List, ast.Set, ast.ListComp, ast.DictComp, ast.SetComp, ast.Call)):
+        return True
+    if isinstance(d, ast.Tuple):
+        return any(_mutable_default(x) for x in d.elts)
+    return False
 
 
 def _single_target_assign(st):
